@@ -367,6 +367,8 @@ func checkC01(c *Ctx) {
 
 	c.Rule("C01.pcrel", "the helper that adds a signed 32-bit immediate to an address (PC-relative targets, auipc), walked with the wrap-around of its Go integer types for immediates 0, 1, -1, 2047, -2048, MaxInt32 and MinInt32 at a low and a high address, returns address + sign-extended immediate modulo 2^64")
 	checkPCRelative(c)
+	c.Rule("C01.wrap", "a constant of width w built from the instruction address (jump and branch targets, the fall-through address) is reduced to w bytes first: the functions of package riscv that call expr.NewConstUint on an address, walked for addresses at both ends of the 32-bit and of the 64-bit space with immediates +8 and -4, never hand it a value that does not fit (the constructor panics on one)")
+	checkAddressWrap(c)
 
 	ri := loadRiscv(c)
 	if ri == nil {
@@ -1073,4 +1075,119 @@ func checkPCRelative(c *Ctx) {
 		}
 	}
 	c.RequireCount("C01.pcrel address+immediate helpers in package riscv", n, 1)
+}
+
+// checkAddressWrap decides C01.wrap.
+func checkAddressWrap(c *Ctx) {
+	addrT := c.Prog.LookupType(ModulePath+"/pkg/model", "Addr")
+	if addrT == nil {
+		c.Undecide("C01.wrap: type model.Addr not found")
+		return
+	}
+	isAddrConst := func(call *ssa.Call) bool {
+		f := call.Call.StaticCallee()
+		return f != nil && NameOf(Origin(f)) == "NewConstUint" && PkgPathOf(f) == ExprPkg && len(call.Call.Args) == 2 && types.Identical(call.Call.Args[0].Type(), addrT)
+	}
+	n := 0
+	for _, fn := range c.Prog.Funcs() {
+		if fn.Blocks == nil || fn.Origin() != nil || PkgPathOf(fn) != ModulePath+"/internal/riscv" {
+			continue
+		}
+		has := false
+		for _, cs := range Calls(fn) {
+			if call, ok := cs.Instr.(*ssa.Call); ok && isAddrConst(call) {
+				has = true
+			}
+		}
+		if !has {
+			continue
+		}
+		n++
+		type scen struct {
+			addr, imm, w int64
+		}
+		for _, sc := range []scen{{0x1000, 8, 4}, {0x1000, -4, 4}, {0xfffffffc, 8, 4}, {0, -4, 4}, {0x1000, 8, 8}, {0, -4, 8}, {-4, 8, 8}} {
+			for _, flag := range []bool{true, false} {
+				sc, flag := sc, flag
+				bad := ""
+				var vl *Valuation
+				vl = &Valuation{
+					Typed: true,
+					Enter: func(g *ssa.Function) bool {
+						if g != nil && g.Blocks != nil && PkgPathOf(g) == ExprPkg && g.Signature.Recv() != nil && len(g.Blocks) == 1 {
+							if n, ok := g.Signature.Recv().Type().(*types.Named); ok && n.Obj().Name() == "Width" {
+								return true // arithmetic on the width (Bits)
+							}
+						}
+						return SamePackage(fn)(g) && NameOf(g) != "parseValue"
+					},
+					Int: func(v ssa.Value) (int64, bool) {
+						if nm, _, ok := FieldNameOfRead(v); ok && nm == "addr" {
+							return sc.addr, true
+						}
+						if p, ok := v.(*ssa.Parameter); ok && p.Parent() == fn {
+							if n, isN := p.Type().(*types.Named); isN && n.Obj().Name() == "Width" {
+								return sc.w, true
+							}
+							if types.Identical(p.Type(), addrT) {
+								return sc.addr + sc.imm, true // a helper that is handed the computed address
+							}
+						}
+						if ex, ok := v.(*ssa.Extract); ok && ex.Index == 0 {
+							if call, ok := ex.Tuple.(*ssa.Call); ok && call.Call.StaticCallee() != nil && NameOf(call.Call.StaticCallee()) == "parseValue" {
+								return sc.imm, true
+							}
+						}
+						return 0, false
+					},
+					Bool: func(v ssa.Value) (bool, bool) {
+						if ex, ok := v.(*ssa.Extract); ok && ex.Index == 1 {
+							if call, ok := ex.Tuple.(*ssa.Call); ok && call.Call.StaticCallee() != nil && NameOf(call.Call.StaticCallee()) == "parseValue" {
+								return true, true
+							}
+						}
+						if p, ok := v.(*ssa.Parameter); ok {
+							if b, isB := p.Type().Underlying().(*types.Basic); isB && b.Kind() == types.Bool {
+								return flag, true
+							}
+						}
+						// which register fields coincide is of no concern here
+						if bo, ok := v.(*ssa.BinOp); ok && (bo.Op == token.EQL || bo.Op == token.NEQ) {
+							if _, isCall := bo.X.(*ssa.Call); isCall {
+								return bo.Op == token.NEQ, true
+							}
+						}
+						return false, false
+					},
+				}
+				seen := 0
+				vl.Visit = func(in ssa.Instruction) {
+					call, ok := in.(*ssa.Call)
+					if !ok || !isAddrConst(call) || bad != "" {
+						return
+					}
+					seen++
+					v, ok1 := vl.EvalInt(call.Call.Args[0], nil)
+					w, ok2 := vl.EvalInt(call.Call.Args[1], nil)
+					switch {
+					case !ok1 || !ok2:
+						bad = "the value or width of the constant cannot be evaluated at " + c.Prog.Pos(call.Pos())
+					case w < 8 && uint64(v)>>(8*uint(w)) != 0:
+						bad = fmt.Sprintf("the %d-byte constant built at %s is given %#x, which does not fit: the constructor panics", w, c.Prog.Pos(call.Pos()), uint64(v))
+					}
+				}
+				res := vl.Walk(fn.Blocks[0], nil)
+				key := fmt.Sprintf("%s/addr=%#x,imm=%d,width=%d,flag=%v", ShortName(fn), uint64(sc.addr), sc.imm, sc.w, flag)
+				switch {
+				case bad != "":
+					c.Fail("C01.wrap", key, c.Prog.FuncPos(fn), bad)
+				case seen == 0:
+					c.Fail("C01.wrap", key, c.Prog.FuncPos(fn), "the walk does not reach the constant: "+res.Why)
+				default:
+					c.Pass("C01.wrap", key, c.Prog.FuncPos(fn), "")
+				}
+			}
+		}
+	}
+	c.RequireCount("C01.wrap functions building a constant from an address", n, 1)
 }
